@@ -18,7 +18,8 @@ RULE = ("A sandbox S holds root/ (files, dirs, mbox, Maildir, HTML; with the ful
         "S/cwd/) and a working directory. A request = base selector x injected token (.. ./ // .\\ \\\\ NUL, "
         "segment- or character-aligned, aimed at real outside objects) x 0-3 percent-encoding layers x virtual/ZIP "
         "suffix x protocol form x handler list x cwd, or raw bytes. Oracles: (a) the reply and the handler chosen "
-        "are identical in two worlds that differ only outside the root, (b) the audit monitor sees no open / "
+        "are identical in two worlds that differ only outside the root - and the reply does not contain the absolute path of the "
+        "root's surroundings unless the request spelt it -, (b) the audit monitor sees no open / "
         "listdir / exec outside realpath(root), (c) a selector that, decoded once as the protocol does, contains "
         "a climbing token and is not a URL: link is answered with the protocol's not-found reply. "
         "Four enumerated start-up cases launch a real server process in a working directory with the root given "
@@ -174,6 +175,8 @@ BASES = ["/", "/gm", "/lk", "/gm", "/lk", "/lk2", "/lk2", "/readme.txt", "/dir",
          "x/file.txt", "x/readme.txt", "x", "x/new/1.msg", "x|/MAILDIR-MESSAGE/1", "/..|/MAILDIR-MESSAGE/1", "/..?", "/..|", "/dir/..|/MAILDIR-MESSAGE/1", "/../rootx|/MAILDIR-MESSAGE/1", "/dir/../..|/MAILDIR-MESSAGE/1"]
 
 
+# executables the kernel refuses to run (no '#!' line): the failure's message names the file by its absolute path
+BASES += ["/plain.exe", "/cgi/no shebang", "/plain.exe?x", "/cgi/no shebang|y"]
 # the reserved namespaces the protocols answer themselves, before any handler (and its selector filter) exists
 BASES += ["/PYGOPHERD-HTTPPROTO-ICONS/text.gif", "/PYGOPHERD-HTTPPROTO-ICONS/../../secret.txt", "/PYGOPHERD-HTTPPROTO-ICONS/../secret.txt",
           "/PYGOPHERD-HTTPPROTO-ICONS/..%2f..%2fsecret.txt", "/PYGOPHERD-HTTPPROTO-ICONS/%2e%2e/%2e%2e/secret.txt", "/PYGOPHERD-HTTPPROTO-ICONS",
@@ -351,6 +354,10 @@ def enumerate_cases(tier, seed):
             for layers in (0, 1):
                 yield {"full": layers == 1, "cwd": "/", "worldB": "absent" if layers else "diff", "form": form, "noslash": False, "sel": d, "inj": "",
                        "style": "none", "layers": layers, "enc_all": False, "lower_hex": False}
+    for d in ("/plain.exe", "/cgi/no shebang"):
+        for form in FORMS:
+            yield {"full": True, "cwd": "/", "worldB": "absent", "form": form, "noslash": False, "sel": d, "inj": "",
+                   "style": "none", "layers": 0, "enc_all": False, "lower_hex": False}
     # selectors in the 'URL:' namespace that are no URLs, as sent (no leading slash) in every form
     for d in ("URL:secret.txt", "URL:dir", "URL:dir/inner.txt"):
         for form in FORMS:
@@ -556,6 +563,21 @@ def check_case(case, ctx):
             fails.append(Fail("interference-log:" + _who(ra, rb),
                               "handler/exception trace depends on what exists outside the root (request %r)" % (req[:100],),
                               {"logsA": ra.logs[-3:], "logsB": rb.logs[-3:]}))
+        # (a') the reply does not tell where on the machine the document root lies (its absolute path names the directories
+        # above it): unless the request itself spelt the path, it does not occur in the reply
+        Sb = os.fsencode(S)
+        import urllib.parse as _up
+        spelt, layer = False, req
+        for _ in range(5):
+            if Sb in layer:
+                spelt = True
+                break
+            layer = _up.unquote_to_bytes(layer)
+        if Sb in ra.response and not spelt and not fails:
+            i = ra.response.index(Sb)
+            fails.append(Fail("reveals-root-path:" + _who(ra, rb),
+                              "the reply to %r contains the absolute path of the document root's surroundings: %r" % (
+                                  req[:100], ra.response[max(0, i - 40):i + len(Sb) + 30])))
         # (b) monitor
         allowed = ("zcat", "bzcat")
         for evs, w in ((eva, "A"), (evb, "B")):
